@@ -206,6 +206,48 @@ func runJailProbeJob(j *Job, res *JobResult) {
 			}
 		}
 	}()
+	// ---- nilopts: calls with nil options are independent of each other (nothing a call writes into "its"
+	//      options may be visible to the next call)
+	func() {
+		_ = os.MkdirAll("/w/.n/root1/src/sub", 0o755)
+		_ = os.WriteFile("/w/.n/root1/src/a", []byte("a"), 0o644)
+		_ = os.WriteFile("/w/.n/root1/src/sub/b", []byte("b"), 0o644)
+		_ = os.MkdirAll("/w/.n/root2", 0o755)
+		_ = os.WriteFile("/w/.n/root2/single", []byte("s"), 0o644)
+		names := func() (string, error) {
+			rc, err := chrootarchive.Tar("/w/.n/root1/src", nil, "/w/.n/root1")
+			if err != nil {
+				return "", err
+			}
+			defer rc.Close()
+			var ns []string
+			tr := tar.NewReader(rc)
+			for {
+				h, err := tr.Next()
+				if err != nil {
+					break
+				}
+				ns = append(ns, h.Name)
+			}
+			return strings.Join(ns, " "), nil
+		}
+		a, err := names()
+		if err != nil {
+			skip("nilopts", err)
+			return
+		}
+		if rc, err := chrootarchive.Tar("/w/.n/root2/single", nil, "/w/.n/root2"); err == nil {
+			_, _ = io.Copy(io.Discard, rc)
+			rc.Close()
+		}
+		_ = chrootarchive.UntarUncompressed(bytes.NewReader(small), "/w/.n/root2", nil)
+		_, _ = chrootarchive.ApplyUncompressedLayer("/w/.n/root2", bytes.NewReader(small), nil)
+		b, err := names()
+		out.Ran = append(out.Ran, "nilopts")
+		if err != nil || a != b {
+			prob("C18 independence: chrooted tar of a directory with nil options gave entries [%s]; after an unrelated chrooted tar of a single file, an untar and a layer apply — all with nil options, on another root — the same call gives [%s] (error %v)", a, b, err)
+		}
+	}()
 	_ = resetWorld()
 }
 
